@@ -5,6 +5,7 @@ import (
 	"math"
 	"math/rand"
 	"os"
+	"runtime/debug"
 	"time"
 
 	"github.com/iotaledger/hive.go/ds/timeheap"
@@ -28,11 +29,14 @@ type timeHeapSUT struct {
 	epochStart time.Time
 }
 
-const timeHeapMarginMs = 11
+// a short-window query that finished (measured after the call) less than this long after the epoch began saw every
+// entry of the epoch younger than the 15 ms window
+const timeHeapMarginMs = 14
 
 func init() { core.Register("TimeHeap", func() core.SUT { return &timeHeapSUT{} }) }
 
 func (s *timeHeapSUT) Reset(cfg core.Ev) {
+	debug.SetGCPercent(-1) // short-lived process with a tiny heap: no collector pauses inside an epoch
 	s.h = timeheap.NewTimeHeap()
 	s.short = time.Duration(core.Int(cfg, "shortMs")) * time.Millisecond
 	s.long = time.Duration(core.Int(cfg, "longMs")) * time.Millisecond
